@@ -3,9 +3,9 @@ import re
 CONFIG = dict(
     bin="c04",
     drv="drv_c04",
-    lean_modules=["MahfModel.Props.C04", "MahfModel.Props.C04Scope"],
-    namespaces=["MahfModel.Props.C04", "MahfModel.Props.C04Scope"],
-    shrink_lists=["ops", "cl", "sc", "cf", "if", "mf"],
+    lean_modules=["MahfModel.Props.C04", "MahfModel.Props.C04Scope", "MahfModel.Props.C04Comp"],
+    namespaces=["MahfModel.Props.C04", "MahfModel.Props.C04Scope", "MahfModel.Props.C04Comp"],
+    shrink_lists=["ops", "cl", "sc", "cf", "if", "mf", "hold", "hold-err"],
     level="proof",
     rule=("programs of Populations operations on a real State (plain histories, and programs with scopes and failing steps). Individuals carry a unique tag and an optional objective value "
           "(evaluated with objective = tag / evaluated with a small objective shared by several individuals / not evaluated); "
@@ -25,11 +25,23 @@ CONFIG = dict(
           "then seven operations of the caller on the same State; (scope-rand) random programs of 4..20 (quick) / 4..40 "
           "(thorough) top-level elements, about a third of them scope trees up to depth 3 whose bodies mix operations, "
           "RotatePopulations above the height, (fail), (failing OP), (try ITEM) and nested scopes of all five kinds; the top "
-          "level carries on after every result and the final stack is read through the accessors; (split) populations of 0..9 or 21..48 individuals with few "
+          "level carries on after every result and the final stack is read through the accessors; random histories and "
+          "programs also contain PopulationEvaluator (identifier Global / A), the shipped pop-process-push components "
+          "(c-comp: selections All / None / CloneSingle / FullyRandom / RandomWithoutRepetition / Tournament / LinearRank / "
+          "RouletteWheel, replacements Merge / DiscardOffspring / MuPlusLambda / Generational / RandomReplacement / "
+          "KeepBetterAtIndex, the real mutation and recombination drivers with a harness operator incl. a failing one, "
+          "ElitistArchiveUpdate / ElitistArchiveIntoPopulation; parameters 0..3) and State::holding::<Populations> with 0..4 "
+          "operations on the held stack and a closure returning Ok or Err; (hold) holding at scope depth 0..3 (kinds of scope "
+          "per level), 0..2 populations below, five edit sequences on the held stack, Ok / Err, reads inside every scope on "
+          "the way out and seven operations of the caller afterwards; (comp) each of 28 components on a current population of "
+          "0, 1, 2, 5 individuals (one flavour with an unevaluated individual), a second population of 0 / 2 and 0..1 more "
+          "below, at scope depth 0..2, followed by len, try_peek 0..2, RotatePopulations, an evaluation and reads; "
+          "(scope-eval) evaluations inside 1..3 scopes of every kind followed by an evaluation, ClearPopulation, an "
+          "evaluation of the EMPTY population and RotatePopulations(2) outside, once or twice; (split) populations of 0..9 or 21..48 individuals with few "
           "distinct objective values, split / interleave / split again; (deep) 15..40 populations of up to 12 individuals, rotations "
           "and peeks around the height. A history is non-trivial if it has at least 3 operations and contains a rotation, peek, "
           "interleave, split, in-place edit or failing step; distinct = distinct canonical op list."),
-    nontrivial=lambda inp: inp.count("(") >= 4 and re.search(r"rot|peek|ileave|split|edit|fail", inp) is not None,
+    nontrivial=lambda inp: inp.count("(") >= 4 and re.search(r"rot|peek|ileave|split|edit|fail|hold|c-eval|c-comp", inp) is not None,
     trusted_base=[
         "Vec/slice primitives (push, pop, last, get, rotate_right, truncate, swap_remove, remove, insert, swap, reverse, clear, "
         "retain, extend) are represented by their list semantics; usize arguments by naturals (the generator goes up to 2^64-1)",
@@ -40,7 +52,12 @@ CONFIG = dict(
         "harness step components (NodeComp) standing for the steps of a scope body: they perform the operation through the "
         "public API / the real utility component, record its output by program position and return Err where the program "
         "says so; Block, Scope, ConfigurationBuilder, Configuration::run and State::with_inner_state are the real ones",
-        "witnesses read off the real run: the two halves produced by SplitPopulationByObjectiveValue (accepted iff a sorted "
+        "the non-stack state the shipped components need (Random seeded 0, Evaluations, sequential evaluators with "
+        "identifiers Global and A on TagProblem (objective = tag), ElitistArchive) is inserted into the root registry; the "
+        "table of documented stack effects (needs / takes / puts per component family) in Model/PopStack.frameEffect? and the "
+        "harness' puts_of; the harness operators TagMutation / TagRecombination behind the real drivers",
+        "witnesses read off the real run: what a pop-process-push component put back (any populations, exactly `puts` of them) "
+        "or the height after its Err / panic (accepted iff between height-takes and height); the two halves produced by SplitPopulationByObjectiveValue (accepted iff a sorted "
         "permutation with the prescribed sizes, otherwise the model answers with the stable sort) and the stack height after a "
         "panic inside a component (accepted iff untouched or code-shaped partial state)"],
     assumptions=["panics never cross a scope boundary in the generated programs (every operation is caught where it is "
@@ -69,13 +86,27 @@ CONFIG.update(
                 "(state_survives_failing_scope); scopes and failing steps only decide which operations run: every program "
                 "amounts to a plain history that is a subsequence of its operations (failing_steps_only_cut_the_history); the "
                 "first failing step ends the body with its own effect on the stack kept (abort_at_first_error); "
-                "scope_hook_failures; plain histories are the special case (top_level_history_is_run). The model is tied to /repo by running the real Populations/State/components on "
+                "scope_hook_failures; plain histories are the special case (top_level_history_is_run); State::holding::<Populations> "
+                "from any scope depth, closure returning Ok or Err, puts the edited stack back into the registry that owned it, "
+                "leaves every registry in place and answers as the plain stack (holding_returns_the_stack_to_its_owner, "
+                "holding_inside_a_scope_keeps_the_callers_stack). Shipped components (Props/C04Comp): PopulationEvaluator keeps "
+                "height, every lower population and tags/order of the top for EVERY current population incl. the empty one "
+                "(evaluator_keeps_the_stack, evaluator_keeps_individuals); for every component with stack effect needs/takes/puts, "
+                "every stack and every witness: the populations below the top `takes` are untouched, success means height "
+                "len-takes+puts with exactly the populations put back on top, a failure leaves a prefix no shorter than the "
+                "untouched part, too low a stack can only panic (component_frame), and try_peek(puts+d) afterwards = "
+                "try_peek(takes+d) before for every d (component_frame_reads). The model is tied to /repo by running the real Populations/State/components on "
                 "exhaustive short and seeded long histories and diffing against the compiled model (K) and the abstract stack (O)."),
     level_note=("Trusted: Lean kernel; Vec/slice primitives represented by list semantics; harness + driver printing. "
                 "Individuals are tag + optional objective. Nondeterminism over legal witnesses: order of equal objective values in a "
                 "split; stack state after a panic inside InterleavePopulations/SplitPopulationByObjectiveValue (untouched or already "
                 "popped — neither property nor docs promise either). partial: RefCell borrows are outside this model; of the "
-                "registry only the part that concerns Populations is modelled (no shadowing Populations inserted inside a scope, no "
-                "State::holding::<Populations>); a panic that unwinds through with_inner_state is not generated. "
+                "registry only the part that concerns Populations is modelled (no shadowing Populations inserted inside a scope; "
+                "State::holding::<Populations> is modelled as take-from-owner / put-back-to-owner, the marker type itself is not); "
+                "of the shipped pop-process-push components only the FRAME is modelled and judged (height effect, every other "
+                "population untouched) — what a selection / replacement / mutation puts back is taken from the run (other "
+                "properties), only PopulationEvaluator is modelled exactly; a component that fails may have taken any of its "
+                "operands off (neither property nor docs promise which); boundary components, DE / CRO / swarm operators are not "
+                "driven (their encodings are not TagProblem's); holding while other state is used by the closure is not generated; a panic that unwinds through with_inner_state is not generated. "
                 "The theorems are about the model; agreement with the code is checked on the generated histories only."),
 )
